@@ -89,7 +89,7 @@ def main():
         bins = c["bins"]
         K = len(bins)
         L = int(rng.choice([2 * K + 4, 64, 50]))
-        dt = float(rng.choice([0.01, 0.002, 0.5]))
+        dt = float(rng.choice([0.01, 0.002, 0.5, 0.016, 0.003]))        # also 62.5 and 333.3 Hz: sampling rates that are no whole number of Hz
         df = 1.0 / (L * dt)
         ph = lambda: np.exp(1j * rng.uniform(0, 2 * np.pi, K))
         ns = series(np.array([b[0] for b in bins]) * ph(), L, rng)
@@ -181,7 +181,9 @@ def generic(run, h, rng, proc):
            ("linear_triangular", 0.9), ("log_triangular", 0.12)]
     for t in range(trials):
         n = int(rng.choice([301, 512, 777, 1200]))
-        dt = float(rng.choice([0.01, 0.005, 0.02]))
+        dt = float(rng.choice([0.01, 0.005, 0.02, 0.016]))
+        if t >= trials - 2:
+            n, dt = 640, 0.01        # the last two trials share the window length and use taper widths 0.125 and 0.12
         mk = lambda: np.cumsum(rng.normal(size=n)) * 0.1 + rng.normal(size=n)
         x = [mk(), mk(), mk()]
         rec = h.SeismicRecording3C(ts(x[0], dt), ts(x[1], dt), ts(x[2], dt))
@@ -189,6 +191,8 @@ def generic(run, h, rng, proc):
         fn = 0.5 / dt
         fcs = np.geomspace(fn * 0.02, fn * 0.6, 9)
         width = float(rng.choice([0.0, 0.1, 0.5, 1.0]))
+        if t >= trials - 2:
+            width = 0.125 if t == trials - 2 else 0.12
 
         def mkst(kind, method=None, w=width, fft=None):
             sm = dict(operator=op, bandwidth=bw, center_frequencies_in_hz=fcs.copy())
